@@ -98,7 +98,8 @@ def vectors_check(v, tier):
     vectors = data['vectors']
     rnd = random.Random(common.SEED)
     if tier == 'quick':
-        vectors = rnd.sample(vectors, 600)
+        cut = [x for x in vectors if any(c[0] == 'cut' for c in x['cookies'])]
+        vectors = rnd.sample([x for x in vectors if x not in cut], 600) + cut
     cache = {}
     junk = b'\xAA' * 32
     classes = set()
@@ -106,7 +107,14 @@ def vectors_check(v, tier):
     n = 0
     for vec in vectors:
         t = vec['t']
-        cookies = [junk if c == ['junk'] else cookie_for({'spi': c[1], 'nonce': c[2], 'addr': c[3]}, threshold, cache) for c in vec['cookies']]
+        def concrete(c):
+            if c == ['junk']:
+                return junk
+            right = cookie_for({'spi': c[1], 'nonce': c[2], 'addr': c[3]}, threshold, cache)
+            if c[0] == 'cut':
+                return right[:c[4]] if c[4] <= len(right) else right + b'\x00' * (c[4] - len(right))
+            return right
+        cookies = [concrete(c) for c in vec['cookies']]
         r = Responder(threshold, seed=common.SEED)
         try:
             for _ in range(vec['h']):
@@ -115,7 +123,7 @@ def vectors_check(v, tier):
             kind, ck = r.classify(reply)
             exp = vec['out']
             n += 1
-            cls = (vec['h'] + 1 > threshold, len(vec['cookies']), exp['reply'], tuple(c[0] if c == ['junk'] else ('right' if c[1:] == [t['spi'], t['nonce'], t['addr']] else 'other') for c in vec['cookies']))
+            cls = (vec['h'] + 1 > threshold, len(vec['cookies']), exp['reply'], tuple(c[0] if c == ['junk'] else (f'cut{c[4]}' if c[0] == 'cut' else ('right' if c[1:] == [t['spi'], t['nonce'], t['addr']] else 'other')) for c in vec['cookies']))
             classes.add(cls)
             if len(samples) < 3 and exp['reply'] == 'COOKIE' and vec['cookies']:
                 samples.append({'half_open': vec['h'], 'tuple': t, 'cookies': vec['cookies'], 'expected': exp, 'observed': {'reply': kind, 'dh': dh, 'left': left}})
